@@ -93,6 +93,11 @@ def _result_arrays(res):
     if isinstance(res, (tuple, list)):
         for r in res:
             out += _result_arrays(r)
+    elif isinstance(res, symnp.SymCSR):
+        if res.data_ref is not None:
+            out.append(res.data_ref)
+    elif hasattr(res, 'indptr') and hasattr(res, 'data'):      # a real scipy sparse matrix (concrete replays): its value storage
+        out.append(res.data)
     elif isinstance(res, np.ndarray):
         out.append(res)
     elif isinstance(res, pf.FaceVariable):
